@@ -221,6 +221,10 @@ def _run_hypothesis(pid, clause, col, tier, shard, seed, examples):
         pass
 
     def body(case):
+        if col.harness is not None:
+            # the harness failed (or the watchdog fired) on an earlier case:
+            # no verdict will come from this task, do not run anything more
+            return
         if col.failure is not None:
             # shrinking phase
             if col.shrink_started is None:
